@@ -162,7 +162,16 @@ fn call_int(args: &[Object]) -> Result<Object, Error> {
                 0
             }
         }
-        Type::Float => unsafe { args[0].as_f64_unchecked() as isize },
+        Type::Float => unsafe {
+            let value = args[0].as_f64_unchecked();
+            if value.is_nan() {
+                return Err(Error::ArgumentError(
+                    "kan NaN niet converteren naar een integer".to_string(),
+                ));
+            }
+            // (saturates for values that do not fit; the range check below reports those)
+            value as isize
+        },
         Type::Int => return Ok(args[0]),
         Type::String => unsafe {
             match args[0].as_str_unchecked().trim().parse() {
@@ -182,6 +191,14 @@ fn call_int(args: &[Object]) -> Result<Object, Error> {
             )))
         }
     };
+
+    // integers are 61 bits wide
+    if !(crate::object::MIN_INT..=crate::object::MAX_INT).contains(&result) {
+        return Err(Error::ArgumentError(format!(
+            "{} valt buiten het bereik van een geheel getal",
+            args[0]
+        )));
+    }
 
     Ok(Object::int(result))
 }
